@@ -117,6 +117,13 @@ CLAIMED = {
         note=TB + "Per-verb preservation of the invariant needs the editor-core model (partial).",
         technique="Coq proof (epilogue clamp lemmas, line-count agreement) + invariant evaluation on dumped states",
         design="§9 C09"),
+    "C10": dict(
+        text="Theorems (all inputs of the modelled components): Opts::parse/handle_global_arg end with an option set or the usage error for every argument vector, scope stack and file-system answer, never a panic (structural recursion: it ends); every key the key reader returns costs at least one byte, so the key loop ends within one iteration per byte and the model's fuel is never what stops it; output formatting ends with text or the error exit; "
+             "the five drivers and main's dispatch add no panic to units that end gracefully; undo/redo have no failing outcome. "
+             "For the un-modelled rest (editor core, ex, vic) the decision is a test, not a proof: argument vectors from the CLI grammar incl. malformed ones, per-mode key grammar, ex/search lines with bad regexes and ranges, raw control/printable fuzz, vic snippets and token soup on empty, newline-only, long-line, multi-byte, combining, ZWJ-emoji, CRLF and NUL texts, plus a regression corpus of every crash repaired; oracle: exit status 0/1 (1 with a diagnostic), no panic, no signal, 8 s limit, valid UTF-8 on stdout.",
+        note=TB + "Panic-freedom of LineBuf verbs/motions, the mode parsers, ex commands and the vic interpreter is covered by the input stream only (partial); hangs there can only be observed by timeout; argument vectors that ask for exponential work (nested -r over line-adding globals) are left out of the stream and counted.",
+        technique="Coq proof (totality / progress lemmas for parser, key reader, formatters, drivers, undo) + CLI and in-process crash stream with regression corpus",
+        design="§9 C10"),
 }
 
 NOT_YET = {}
